@@ -147,8 +147,11 @@ _CANON_K = z3.Int("canon.k")
 def defn_name(prefix, n, k, body):
     """name of the array constant defined by (length n, k-th element body): structurally equal definitions get the same
     constant, so that "the same array" (and the same SUM over it) is decided by syntactic identity"""
+    import hashlib
     canon = z3.substitute(body, (k, _CANON_K))
-    return "%s#%d.%d" % (prefix, tz(n).get_id() if z3.is_expr(tz(n)) else int(n), canon.get_id())
+    ns = tz(n).sexpr() if z3.is_expr(tz(n)) else str(int(n))
+    # (AST ids are not stable: a term that was freed and is rebuilt gets a new id; the printed form is)
+    return "%s#%s" % (prefix, hashlib.md5((ns + "|" + canon.sexpr()).encode()).hexdigest()[:16])
 
 
 def mk_seq(interp, n, k, body, kind, ekind, nbody=None):
@@ -1176,6 +1179,9 @@ class Lib:
             a = a.val if isinstance(a, SOpt) else a
             b = b.val if isinstance(b, SOpt) else b
             return interp.compare_op({"<": ast.Lt(), "<=": ast.LtE(), ">": ast.Gt(), ">=": ast.GtE()}[op], a, b, node)
+        if op == "!=" and ((isinstance(a, (SSeq, CList)) and a.kind == "ndarray" and isinstance(b, SCALAR + (SSeq, CList)))
+                           or (isinstance(b, (SSeq, CList)) and b.kind == "ndarray" and isinstance(a, SCALAR))):
+            return self.elementwise(interp, lambda x, y: compare("!=", x, y), a, b, node)
         if op in ("==", "!="):
             r = self.equal(interp, a, b, node)
             if r is NotImplemented:
@@ -2030,6 +2036,10 @@ class Lib:
 
     def f_np__all(self, interp, args, kwargs, node):
         x = args[0]
+        if isinstance(x, SOpaque) and x.tag == "uniqmask":
+            # every distinct value satisfies the comparison iff every element does
+            seq, op, val = x.payload
+            return ForAll(0, seq.length, lambda i: compare(op, seq.get(i), val))
         if isinstance(x, (bool, SBool)):
             return x
         return self.f_all(interp, [x], kwargs, node)
